@@ -176,6 +176,13 @@ impl<'tcx> Cx<'tcx> {
                         None => J::Null,
                     },
                 ),
+                (
+                    "len_param",
+                    match len.kind() {
+                        ty::ConstKind::Param(p) => J::Str(p.name.to_string()),
+                        _ => J::Null,
+                    },
+                ),
             ]),
             ty::Slice(elem) => J::obj(vec![("k", J::s("slice")), ("elem", self.ty(*elem))]),
             ty::Closure(did, args) => J::obj(vec![
@@ -224,9 +231,28 @@ impl<'tcx> Cx<'tcx> {
     fn generic_args(&self, args: GenericArgsRef<'tcx>) -> J {
         J::Arr(
             args.iter()
-                .filter_map(|a| a.as_type().map(|t| self.ty(t)))
+                .filter_map(|a| match (a.as_type(), a.as_const()) {
+                    (Some(t), _) => Some(self.ty(t)),
+                    (_, Some(c)) => Some(self.const_arg(c)),
+                    _ => None,
+                })
                 .collect(),
         )
+    }
+
+    /// a const generic argument: its value, the name of the const parameter it forwards, or opaque
+    fn const_arg(&self, c: ty::Const<'tcx>) -> J {
+        match c.kind() {
+            ty::ConstKind::Param(p) => J::obj(vec![("k", J::s("param")), ("name", J::Str(p.name.to_string())), ("const", J::Bool(true))]),
+            ty::ConstKind::Value(v) => match v.try_to_leaf() {
+                Some(si) => {
+                    let size = si.size();
+                    J::obj(vec![("k", J::s("cval")), ("int", J::Int(si.to_bits(size) as i128)), ("bytes", J::Int(size.bytes() as i128)), ("ty", self.ty(v.ty))])
+                }
+                None => J::obj(vec![("k", J::s("other")), ("s", J::Str(format!("{:?}", c)))]),
+            },
+            _ => J::obj(vec![("k", J::s("other")), ("s", J::Str(format!("{:?}", c)))]),
+        }
     }
 
     fn place(&self, p: &Place<'tcx>) -> J {
@@ -380,6 +406,12 @@ impl<'tcx> Cx<'tcx> {
         if let ty::FnDef(did, args) = t.kind() {
             v.push(("fn", self.fn_ref(owner, *did, args)));
             return J::obj(v);
+        }
+        if let Const::Ty(_, ct) = c {
+            if let ty::ConstKind::Param(p) = ct.kind() {
+                v.push(("cparam", J::Str(p.name.to_string())));
+                return J::obj(v);
+            }
         }
         if let Const::Unevaluated(uv, _) = c {
             if let Some(p) = uv.promoted {
@@ -675,6 +707,13 @@ impl<'tcx> Cx<'tcx> {
                     match n.try_to_target_usize(self.tcx) {
                         Some(n) => J::Int(n as i128),
                         None => J::Null,
+                    },
+                ),
+                (
+                    "n_param",
+                    match n.kind() {
+                        ty::ConstKind::Param(p) => J::Str(p.name.to_string()),
+                        _ => J::Null,
                     },
                 ),
             ]),
@@ -1132,7 +1171,7 @@ fn dump_crate<'tcx>(tcx: TyCtxt<'tcx>, name: &str) -> J {
             let mut names: Vec<J> = Vec::new();
             for i in 0..g.count() {
                 let p = g.param_at(i, tcx);
-                if matches!(p.kind, ty::GenericParamDefKind::Type { .. }) {
+                if matches!(p.kind, ty::GenericParamDefKind::Type { .. } | ty::GenericParamDefKind::Const { .. }) {
                     names.push(J::Str(p.name.to_string()));
                 }
             }
